@@ -10,9 +10,9 @@ def sh(*a, **k): return subprocess.run(*a, **k)
 def sync():
     os.makedirs(LAB, exist_ok=True)
     sh(['rsync','-a','--delete','--exclude','target','--exclude','.git','/repo/', LAB+'/repo/'], check=True)
-    sh(['rsync','-a','--delete','--exclude','harness/target','--exclude','harness/target-*','--exclude','work','--exclude','evidence','--exclude','replays','--exclude','.git','--exclude','harness/Cargo.toml','--exclude','fpprobe/Cargo.toml', '--exclude', 'harness/fuzz/target',
+    sh(['rsync','-a','--delete','--exclude','harness/target','--exclude','harness/target-*','--exclude','work','--exclude','evidence','--exclude','replays','--exclude','.git','--exclude','/harness/Cargo.toml','--exclude','/harness/fpprobe/Cargo.toml', '--exclude', 'harness/fuzz/target',
         '/verif/', LAB+'/verif/'], check=True)
-    for rel in ['harness/Cargo.toml']:
+    for rel in ['harness/Cargo.toml', 'harness/fpprobe/Cargo.toml']:
         src = open('/verif/'+rel).read().replace('/repo/', LAB+'/repo/')
         dst = LAB+'/verif/'+rel
         if not os.path.exists(dst) or open(dst).read() != src:
